@@ -1,6 +1,10 @@
 package text
 
-import "github.com/gobuffalo/plush/v5/helpers/hctx"
+import (
+	"unicode/utf8"
+
+	"github.com/gobuffalo/plush/v5/helpers/hctx"
+)
 
 // Truncate will try to return a string that is no longer
 // than `size`, which defaults to 50. If given
@@ -19,13 +23,22 @@ func Truncate(s string, opts hctx.Map) string {
 	if v, ok := opts["trail"].(string); ok {
 		trail = v
 	}
-	runesS := []rune(s)
-	if len(runesS) <= size {
+	if utf8.RuneCountInString(s) <= size {
 		return s
 	}
-	runesTrail := []rune(trail)
-	if len(runesTrail) >= size {
+	trailLen := utf8.RuneCountInString(trail)
+	if trailLen >= size {
 		return trail
 	}
-	return string(runesS[:size-len(runesTrail)]) + trail
+	// cut s itself on a character boundary (converting to runes and back would
+	// rewrite bytes that are not valid UTF-8)
+	keep := size - trailLen
+	n := 0
+	for i := range s {
+		if n == keep {
+			return s[:i] + trail
+		}
+		n++
+	}
+	return s + trail
 }
